@@ -375,6 +375,32 @@ def evaluated(rep, ex: Explorer, qual: str, role: str):
                     oracle[k_] = a
                 if not feasible:
                     continue
+                # an answer taken from state that outlives the call (module-level or class-level memo) without a single test:
+                # sound only if the memo's key determines the conditionals - a key built from the base's keys (or its
+                # identity) alone also fits another base, or this one after a conditional was replaced
+                def _outlives(d):
+                    """does the descriptor mention a container that exists outside this call (module-level state)?"""
+                    if isinstance(d, tuple):
+                        if d[:1] == ("dict",) and len(d) == 2:
+                            o_ = p.state.heap.get(d[1])
+                            return getattr(o_, "sym", None) is not None and isinstance(o_.sym, tuple) and o_.sym[:1] == ("global",)
+                        if d[:1] == ("global",):
+                            return True
+                        return any(_outlives(x) for x in d)
+                    return False
+
+                memo = [(k, v) for k, v in p.decisions if k[0] == "in" and v is True and _outlives(k[2]) and isinstance(k[1], tuple) and k[1][:1] == ("tuple",)]
+                if memo and not oracle and not names:
+                    continue  # (the empty base: judged on the larger ones)
+                if memo and not oracle and names:
+                    keyd = memo[0][0][1]
+                    mentions = [nm for nm in names if F.mentions(keyd, {("obj", nm)})]
+                    n_paths += 1
+                    if len(mentions) < len(names):
+                        rep.violation("PART.partition", site, f"{n} conditionals, {mode}: verdict from a memo", "the verdict comes from the tolerance tests of the conditionals the base holds at the time of the call",
+                                      extracted=f"taken from state kept between calls under a key that does not contain the conditionals: {F.show_desc(keyd)[:140]}", required="tested, or remembered under a key that determines the conditionals", function=site)
+                        continue
+                    raise AnalysisError(f"{site}: the verdict is taken from state kept between calls; cannot decide that it belongs to these conditionals")
                 n_paths += 1
                 # what the answers determine; a test that was never asked may have either answer
                 def reference(orc):
